@@ -72,6 +72,7 @@ func main() {
 		solverK  = flag.String("solver", "z3new,cvc5", "solver portfolio (comma list of z3new|z3old|cvc5)")
 		list     = flag.Bool("list", false, "list harnesses")
 		nvalid   = flag.Int("validate", -1, "number of completed paths per harness to validate natively")
+		replayF  = flag.String("replay", "", "replay one counterexample/sample file natively against the real build and print the outcome")
 	)
 	flag.Parse()
 	if env := os.Getenv("VERIF_TIER"); env != "" && !isFlagSet("tier") {
@@ -94,6 +95,9 @@ func main() {
 		os.Exit(2)
 	}
 	loadS := time.Since(t0).Seconds()
+	if *replayF != "" {
+		os.Exit(replayOne(w, *prop, *tier, *replayF))
+	}
 	var hs []*Harness
 	for _, h := range w.harnesses {
 		if *prop != "" && !h.serves(*prop) {
@@ -404,4 +408,48 @@ func writeJSON(path string, v interface{}) error {
 	}
 	os.MkdirAll(filepath.Dir(path), 0o755)
 	return os.WriteFile(path, data, 0o644)
+}
+
+// replayOne re-executes one stored sample natively (go test -overlay) and
+// prints the outcome line; exit 1 when the violation reproduces.
+func replayOne(w *World, prop, tier, file string) int {
+	data, err := os.ReadFile(file)
+	if err != nil {
+		fmt.Fprintln(os.Stderr, err)
+		return 2
+	}
+	var s pathSample
+	if err := json.Unmarshal(data, &s); err != nil {
+		fmt.Fprintln(os.Stderr, err)
+		return 2
+	}
+	pkgOf := map[string]string{}
+	for _, h := range w.harnesses {
+		pkgOf[h.Name] = h.Pkg
+	}
+	if pkgOf[s.Harness] == "" {
+		fmt.Fprintln(os.Stderr, "unknown harness", s.Harness)
+		return 2
+	}
+	tmp := filepath.Join(w.verifDir, "evidence", "replay", prop, "manual")
+	os.MkdirAll(tmp, 0o755)
+	cp := filepath.Join(tmp, filepath.Base(file))
+	os.WriteFile(cp, data, 0o644)
+	s.file = cp
+	s.Kind = "counterexample"
+	rep := &Report{w: w, prop: prop + "/manual", tier: tier}
+	out, err := rep.runNative([]*pathSample{&s}, pkgOf)
+	if err != nil {
+		fmt.Fprintln(os.Stderr, err)
+		return 2
+	}
+	code := 0
+	for _, o := range out {
+		fmt.Println(o.Line)
+		if o.Kind != "not-reproduced" {
+			code = 1
+		}
+	}
+	os.RemoveAll(filepath.Join(w.verifDir, "evidence", "replay", prop, "manual"))
+	return code
 }
